@@ -186,4 +186,116 @@ def WFProg (p : Program) : Prop := p.all wfCommand = true
 
 instance (p : Program) : Decidable (WFProg p) := by unfold WFProg; infer_instance
 
+/-! ### Reference reading of an arbitrary lexeme sequence
+
+What a sequence of lexemes means, well-formed or not, told as a left-to-right pass with an
+explicit stack of open groups (no recursive descent, no text).  Used as the reference for the
+"malformed source is rejected, and the error names the line" clause: the offending lexeme is
+identified by its index, its line is a matter of the lay-out (`lexLine`). -/
+
+inductive Reading where
+  | prog (p : Program)
+  /-- lexeme `i` stands where a command name is expected and is not one -/
+  | badCommand (i : Nat)
+  /-- lexeme `i` stands where the `{` of an argument group is expected -/
+  | braceExpected (i : Nat)
+  /-- the text ends inside a command (missing group or unclosed `{`) -/
+  | prematureEnd
+  deriving Repr
+
+structure RState where
+  /-- completed commands, last first -/
+  done : List Command := []
+  /-- command being read: name, number of groups still to come (≥ 1), groups read (last first) -/
+  cur : Option (Str × Nat × List (List Tok)) := none
+  /-- open groups, innermost first, each with its tokens last first -/
+  stack : List (List Tok) := []
+
+def wordTok : Str → Tok
+  | '\'' :: n => .quoted n
+  | n => .name n
+
+/-- a group of the current command is complete -/
+def RState.closeGroup (s : RState) (g : List Tok) : RState :=
+  match s.cur with
+  | some (n, k + 2, gs) => { s with cur := some (n, k + 1, g :: gs), stack := [] }
+  | some (n, _, gs) => { done := ⟨n, (g :: gs).reverse⟩ :: s.done, cur := none, stack := [] }
+  | none => { s with stack := [] }
+
+def RState.push (s : RState) (t : Tok) : RState :=
+  match s.stack with
+  | g :: st => { s with stack := (t :: g) :: st }
+  | [] => s
+
+def RState.step (s : RState) (i : Nat) (l : Lex) : Except Reading RState :=
+  match s.stack with
+  | g :: st =>
+    match l with
+    | .lb => .ok { s with stack := [] :: g :: st }
+    | .rb =>
+      match st with
+      | [] => .ok (s.closeGroup g.reverse)
+      | g' :: st' => .ok { s with stack := (.fn g.reverse :: g') :: st' }
+    | .word w => .ok (s.push (wordTok w))
+    | .int v => .ok (s.push (.int v))
+    | .str x => .ok (s.push (.str x))
+  | [] =>
+    match s.cur with
+    | some _ => if l = .lb then .ok { s with stack := [[]] } else .error (.braceExpected i)
+    | none =>
+      match l with
+      | .word w =>
+        match cmdArity w with
+        | some 0 => .ok { s with done := ⟨w, []⟩ :: s.done }
+        | some k => .ok { s with cur := some (w, k, []) }
+        | none => .error (.badCommand i)
+      | _ => .error (.badCommand i)
+
+def readFrom (s : RState) (i : Nat) : List Lex → Reading
+  | [] => if s.cur.isNone && s.stack.isEmpty then .prog s.done.reverse else .prematureEnd
+  | l :: ls =>
+    match s.step i l with
+    | .error r => r
+    | .ok s' => readFrom s' (i + 1) ls
+
+def read (ls : List Lex) : Reading := readFrom {} 0 ls
+
+/-- number of line breaks in a text (`\r\n` is one) -/
+def breaks : Str → Nat
+  | [] => 0
+  | '\r' :: '\n' :: r => breaks r + 1
+  | c :: r => if isLineSep c then breaks r + 1 else breaks r
+
+/-- the text `render` puts in front of lexeme number `i` (white space and comments included) -/
+def textBefore : Option Lex → List Lex → List Gap → Nat → Str
+  | _, [], _, _ => []
+  | prev, l :: _, gs, 0 => sepText prev l (gs.headD [])
+  | prev, l :: ls, gs, i + 1 =>
+    sepText prev l (gs.headD []) ++ (l.text ++ textBefore (some l) ls gs.tail i)
+
+/-- 1-based line on which lexeme `i` of `render none ls gaps` starts -/
+def lexLine (ls : List Lex) (gaps : List Gap) (i : Nat) : Nat := 1 + breaks (textBefore none ls gaps i)
+
+/-- the line a "premature end" is reported on: the last line of the text -/
+def eofLine (text : Str) : Nat := max 1 (splitLines text).length
+
+/-- a lexeme that is what it claims to be when written down -/
+def wfLex : Lex → Bool
+  | .word w => (match w with | [] => false | _ :: _ => w.all nameChar)
+  | .str s => wfStr s
+  | _ => true
+
+/-! ### Comments -/
+
+/-- Position of the `%` that starts the comment of a line: the first `%` with an even number of
+`"` in front of it (i.e. outside a string literal). -/
+def commentStart (line : Str) : Option Nat :=
+  (List.range line.length).find? fun k => line[k]? == some '%' && (line.take k).count '"' % 2 == 0
+
+/-- the line without its comment -/
+def uncommented (line : Str) : Str :=
+  match commentStart line with
+  | some k => line.take k
+  | none => line
+
 end Pybtex.Bst
